@@ -358,6 +358,82 @@ fn run(name: &str, j: &J) -> Result<bool, String> {
             println!("  type of {}(a) over {}: {}; at a = {} the value is {}", fname, dt, img, x, y);
             Ok(img.contains(&Value::float(y)))
         }
+        // C09: a DISTINCT aggregate must be computed on de-duplicated values: the rewritten query has to contain a
+        // de-duplication (GROUP BY / DISTINCT) on the aggregated column somewhere below the noisy aggregate
+        "c09_distinct_is_deduplicated" => {
+            use qrlew::{hierarchy::Hierarchy, expr::Identifier, sql::parse, differential_privacy::DpParameters};
+            use std::sync::Arc;
+            let agg = j["agg"].as_str().unwrap_or("count");
+            let table: Relation = Relation::table().name("t").schema(vec![("id", DataType::integer()), ("y", DataType::float_interval(0., 10.))].into_iter().collect::<Schema>()).size(1000).build();
+            let relations: Hierarchy<Arc<Relation>> = vec![table].iter().map(|t| (Identifier::from(t.name()), Arc::new(t.clone().into()))).collect();
+            let query = format!("SELECT {}(DISTINCT y) AS c FROM t", agg);
+            let relation = Relation::try_from(parse(&query).map_err(|e| e.to_string())?.with(&relations)).map_err(|e| e.to_string())?;
+            let rewritten = relation.rewrite_with_differential_privacy(&relations, None, PrivacyUnit::from(vec![("t", vec![], "id")]), DpParameters::from_epsilon_delta(1., 1e-3)).map_err(|e| e.to_string())?;
+            // walk the rewritten relation: is there any Reduce grouping by a column that stands for y, or any DISTINCT?
+            fn walk(r: &Relation, found: &mut bool, depth: usize) {
+                if let Relation::Reduce(red) = r {
+                    let gb: Vec<String> = red.group_by().iter().map(|c| c.to_string()).collect();
+                    println!("  {}Reduce {} GROUP BY [{}]", " ".repeat(depth), red.name(), gb.join(", "));
+                    if gb.iter().any(|g| g == "y" || g.ends_with(".y")) { *found = true; }
+                }
+                for i in r.inputs() { walk(i, found, depth + 1); }
+            }
+            let mut found = false;
+            walk(rewritten.relation(), &mut found, 0);
+            let sql = qrlew::ast::Query::from(rewritten.relation()).to_string();
+            if sql.to_uppercase().contains("DISTINCT") { found = true; }
+            if j["print_sql"].as_bool().unwrap_or(false) { println!("  rewritten: {}", sql); }
+            println!("  query: {}\n  rewritten query de-duplicates y: {}", query, found);
+            Ok(found)
+        }
+        // C11: struct types — A ⊆ B and v ∈ A must give v ∈ B
+        "c11_struct_subset" => {
+            let ty = |spec: &J| -> DataType { DataType::structured(spec.as_array().unwrap().iter().map(|f| {
+                let name = f[0].as_str().unwrap().to_string();
+                let t = match f[1].as_str().unwrap() { "any" => DataType::Any, "int" => DataType::integer_interval(0, 10), "float" => DataType::float_interval(0., 1.), other => panic!("type {}", other) };
+                (name, t) }).collect::<Vec<_>>()) };
+            let a = ty(&j["a"]); let b = ty(&j["b"]);
+            let v = Value::structured(j["v"].as_array().unwrap().iter().map(|f| (f[0].as_str().unwrap().to_string(), Value::integer(f[1].as_i64().unwrap()))).collect::<Vec<_>>());
+            let (sub, ina, inb) = (a.is_subset_of(&b), a.contains(&v), b.contains(&v));
+            println!("  A = {}, B = {}, v = {}: A.is_subset_of(B) = {}, A.contains(v) = {}, B.contains(v) = {}", a, b, v, sub, ina, inb);
+            Ok(!(sub && ina && !inb))
+        }
+        // C14: schema of a Reduce — which output columns are declared UNIQUE
+        "c14_reduce_unique" => {
+            use qrlew::relation::Constraint;
+            let cons = |k: &str| -> Option<Constraint> { match j[k].as_str() { Some("unique") => Some(Constraint::Unique), Some("fk") => Some(Constraint::ForeignKey), Some("pk") => Some(Constraint::PrimaryKey), _ => None } };
+            let schema: Schema = vec![("g", DataType::integer_interval(0, 10), cons("g")), ("h", DataType::integer_interval(0, 10), cons("h")), ("x", DataType::integer_interval(0, 10), cons("x"))].into_iter().collect();
+            let table: Relation = Relation::table().name("t").schema(schema).size(100).build();
+            // keys: the group-by columns; firsts: columns output through FIRST(col)
+            let keys: Vec<String> = j["keys"].as_array().unwrap().iter().map(|k| k.as_str().unwrap().to_string()).collect();
+            let firsts: Vec<String> = j["firsts"].as_array().unwrap().iter().map(|k| k.as_str().unwrap().to_string()).collect();
+            let mut b = Relation::reduce().name("r").input(table);
+            for f in &firsts { b = b.with((format!("first_{}", f), AggregateColumn::first(f.as_str()))); }
+            b = b.with(("s", AggregateColumn::sum("x")));
+            for k in &keys { b = b.group_by(Expr::col(k.as_str())); }
+            let red: Relation = b.build();
+            // rows (g, h, x) honouring the declared constraints of the witness; execute the reduce by hand
+            let rows: Vec<(i64, i64, i64)> = j["rows"].as_array().unwrap().iter().map(|r| (r[0].as_i64().unwrap(), r[1].as_i64().unwrap(), r[2].as_i64().unwrap())).collect();
+            let col = |r: &(i64, i64, i64), c: &str| match c { "g" => r.0, "h" => r.1, _ => r.2 };
+            // the rows must honour the declared constraints, otherwise the witness says nothing
+            for c in ["g", "h", "x"] { if matches!(cons(c), Some(Constraint::Unique) | Some(Constraint::PrimaryKey)) {
+                let mut v: Vec<i64> = rows.iter().map(|r| col(r, c)).collect(); let n = v.len(); v.sort(); v.dedup();
+                if v.len() != n { println!("  rows do not honour UNIQUE({})", c); return Ok(true); }
+            } }
+            let mut groups: Vec<(Vec<i64>, (i64, i64, i64))> = vec![];
+            for r in &rows { let key: Vec<i64> = keys.iter().map(|k| col(r, k)).collect(); if !groups.iter().any(|(k, _)| *k == key) { groups.push((key, *r)); } }
+            let mut ok = true;
+            for f in &firsts {
+                let name = format!("first_{}", f);
+                let field = red.schema().field(&name).map_err(|e| e.to_string())?;
+                let declared_unique = matches!(field.constraint(), Some(Constraint::Unique) | Some(Constraint::PrimaryKey));
+                let vals: Vec<i64> = groups.iter().map(|(_, first)| col(first, f)).collect();
+                let mut d = vals.clone(); d.sort(); d.dedup();
+                println!("  {}: declared {:?}; values over the groups {:?}", name, field.constraint(), vals);
+                if declared_unique && d.len() != vals.len() { ok = false; }
+            }
+            Ok(ok)
+        }
         _ => Err(format!("unknown replay `{}`", name)),
     }
 }
